@@ -48,6 +48,35 @@ FIRST = {
     'C17-2': ('silent', [], 'C17.R5 no loop-carried local'),
     'C17-3': ('silent', [], 'C17.R6 Kronecker site order'),
     'C19-1': ('reported', [], None), 'C19-2': ('reported', [], None), 'C19-3': ('reported', [], None),
+    # second round (a second agent per property, asked for less obvious changes; exact repeats of earlier seeds not kept)
+    'C01-4': ('silent', [], 'C01.R2 / C13.R1 must-pass-through: every returning path runs through the sweep'),
+    'C01-5': ('reported', ['C02'], None),
+    'C02-4': ('reported', [], 'label temporaries in the sweep machine; label stores tolerated in the factor tail (C01 ended in an '
+                              'analysis error on a routine that was still correct)'),
+    'C02-5': ('silent', [], 'C02.R7 constructor loop carries no local from site to site'),
+    'C03-4': ('silent', [], 'C03.R6 linearity: tensor entries are never inspected'),
+    'C04-4': ('reported', [], None), 'C04-5': ('reported', [], None), 'C04-6': ('reported', ['C08', 'C10'], None),
+    'C05-4': ('analysis-error', [], 'C05.R3: node map recorded by enumerating the new layer (violation instead of exit 2)'),
+    'C05-5': ('silent', [], 'C05.R6 lockstep of co-indexed lists'),
+    'C05-6': ('silent', [], 'C05.R7 value-independent structure'),
+    'C07-4': ('reported', [], None),
+    'C07-5': ('silent', [], 'C07.R5 spectator orbitals cover [0, i) and [i + 2, L)'),
+    'C07-6': ('analysis-error', [], 'len()-allocators judged together with id gaps of the same family (C07.R1)'),
+    'C08-4': ('reported', ['C04', 'C10'], None),
+    'C09-4': ('silent', ['C08'], 'C09.R2 carries the wiring (slot / stale) obligations'),
+    'C10-4': ('reported', [], None), 'C10-5': ('reported', [], None),
+    'C11-4': ('analysis-error', [], 'block engine: a flag raised in one conditional permutation stands for that guard'),
+    'C11-5': ('analysis-error', [], 'block engine: returning path that bypasses the block loop is reported'),
+    'C11-6': ('analysis-error', [], 'block engine: dummy-bond branch under any other condition than "no shared charge" is reported'),
+    'C12-4': ('analysis-error', [], 'truncation rule: every return judged; unknown steps become unknown values instead of exit 2'),
+    'C12-5': ('reported', ['C02', 'C03'], None),
+    'C13-4': ('reported', [], None),
+    'C14-4': ('silent', [], 'C14.R7 projection bookkeeping'),
+    'C14-5': ('reported', ['C08', 'C09', 'C10'], None),
+    'C16-4': ('reported', [], None),
+    'C17-4': ('silent', [], 'C17.R4: no early exit from the reachability sweep; conflicting ways of extending the layer list'),
+    'C17-5': ('silent', [], 'C17.R7 value-independent structure of the tree insertion'),
+    'C19-4': ('reported', ['C02'], None), 'C19-5': ('reported', [], None),
 }
 
 
